@@ -42,6 +42,8 @@ def eval (op : String) (args : List Sexp) : Option (Res Int) := do
   | "ymd", [y, m, d, h] => pure (dtYmd (← intOf y) (← intOf m) (← intOf d) (← intOf h) 0 0)
   | "ymd", [y, m, d, h, mi] => pure (dtYmd (← intOf y) (← intOf m) (← intOf d) (← intOf h) (← intOf mi) 0)
   | "ymd", [y, m, d, h, mi, s] => pure (dtYmd (← intOf y) (← intOf m) (← intOf d) (← intOf h) (← intOf mi) (← intOf s))
+  | "ymd", [y, m, d, h, mi, s, us] =>
+      pure (dtYmd7 (← intOf y) (← intOf m) (← intOf d) (← intOf h) (← intOf mi) (← intOf s) (← intOf us))
   | "date", [t] | "ts", [t] | "pd", [t] => pure (checkRange (← timeOf t))
   | "np", [u, t] => (npTrunc (← strOf u) (← timeOf t)).map checkRange
   | "str", [.atom "uk", s] => dtStr true (← strOf s)
